@@ -88,6 +88,8 @@ type hist struct {
 	nextK int
 	out   *bufio.Writer
 	step  int
+	// observables of the freshly initialised block
+	fresh *obs
 	// oracle failures in this history
 	fails []string
 	// stats
@@ -122,6 +124,9 @@ func newHist(c cfg, out *bufio.Writer, st *stats) *hist {
 		panic("algo")
 	}
 	h.md.Init(c.size)
+	if !guard(func() { o := h.observe(); h.fresh = &o }) && h.fresh != nil && h.fresh.regPanic {
+		h.fresh = nil
+	}
 	return h
 }
 
@@ -555,6 +560,12 @@ func (h *hist) checkState(o obs, opKind string) {
 		}
 		if bad {
 			h.fail("C17", "tlsf:iteration", fmt.Sprintf("%s live=%d", o.it, len(h.live)))
+		}
+	}
+	// C18: an emptied block is indistinguishable from a freshly initialised one
+	if len(h.live) == 0 && h.fresh != nil {
+		if o.s != h.fresh.s || o.v != h.fresh.v || o.st != h.fresh.st || o.ds != h.fresh.ds || o.it != h.fresh.it {
+			h.fail("C18", h.c.algo+":empty-not-fresh", fmt.Sprintf("%s | %s  (fresh: %s | %s)", o.s, o.v, h.fresh.s, h.fresh.v))
 		}
 	}
 	if len(h.live) > h.st.maxLive {
@@ -1210,7 +1221,10 @@ func main() {
 		profile := fs.String("profile", "basic", "")
 		prefix := fs.String("prefix", "", "ops file whose history is replayed before generation continues")
 		fs.Parse(os.Args[2:])
-		r := &rng{s: *seed*0x9e3779b97f4a7c15 + 12345}
+		// mix the seed so that the streams of neighbouring seeds are unrelated
+		r := &rng{s: (*seed ^ 0x5DEECE66D) * 0xbf58476d1ce4e5b9}
+		r.next()
+		r.s ^= r.next() << 1
 		if *algo == "leaf" {
 			genLeaf(out, r, st, *n)
 			printSummary(st, 1, nil)
